@@ -347,6 +347,16 @@ pub struct VDb {
 #[salsa::db]
 impl salsa::Database for VDb {}
 
+impl VDb {
+    /// give up the thread-local state through `Storage::into_zalsa_handle` (partially filled
+    /// pages go back to the shared pool) and continue on a new `Storage` built from the handle
+    pub fn park_and_resume(self) -> VDb {
+        let VDb { storage, ctx } = self;
+        let handle = storage.into_zalsa_handle();
+        VDb { storage: handle.into_storage(), ctx }
+    }
+}
+
 #[salsa::db]
 impl Vd for VDb {
     fn ctx(&self) -> &Ctx {
